@@ -1,5 +1,6 @@
 import DelbModel.Model.XPath.Eval
 import DelbModel.Model.XPath.Spec
+import DelbModel.Model.XPath.PredSpec
 import DelbModel.Lemmas.XPathEval
 /-!
 # C06 — XPath queries select what XPath 1.0 says they select
@@ -395,5 +396,208 @@ example : evalPath exTree exEnv [] exDocType = .ok [.at []] := by rfl
 example : ¬ DocTypeOk { axis := "parent", test := .type "CommentNode", preds := [] } (.at []) := by
   intro h
   exact absurd (h "CommentNode" rfl (by decide)) (by decide)
+
+/-! ## the VALUE of a predicate against XPath 1.0
+
+The theorems above take the value of a predicate expression from the mechanism (`predHolds`).
+`Model/XPath/PredSpec.lean` states what XPath 1.0 (§2.4, §3.4, §4) says that value is (`predSpec`), and
+`PredSafe` marks the situations in which the mechanism is known to differ, one condition per deviation:
+
+* `attrCompare` — recorded finding `attribute-compare-absent`;
+* `attrBoolean` — recorded finding `not-boolean-empty-attribute`;
+* `numberPred` — recorded finding `number-predicate-not-position`;
+* `attrFunction` — recorded finding `attribute-function-on-non-tag`;
+* `andOr`, `boolCompare` — two further deviations the proof ran into (`[1 and 2]`, `[not(@a) = 2]`);
+* `shapeTop`, `shape` — no deviation: the form in which the parser renders `@name` (`attrToValue`).
+
+The unrestricted statement is false (`c06_pred_deviation_*` below), hence `_partial`. -/
+
+/-- outside the marked situations, wherever XPath 1.0 gives the predicate a value the mechanism returns
+    without raising, and the truthiness of what it returns is that value -/
+theorem c06_pred_xpath1_value_partial (root : PTree) (env : NsEnv) (ctx : Ctx) (e : Expr) (b : Bool)
+    (hs : PredSafe root env ctx e) (h : predSpec root env ctx e = some b) :
+    ∃ v, evalExpr root env ctx e = .ok v ∧ truthy v = b := by
+  exact evalExpr_truthy_of_predSafe root env ctx e b hs h
+
+/-- … so for predicates of the supported language (`predSpec` has a value) mechanism and XPath 1.0 agree
+    exactly -/
+theorem c06_pred_eq_xpath1_partial (root : PTree) (env : NsEnv) (ctx : Ctx) (e : Expr) (b : Bool)
+    (hs : PredSafe root env ctx e) (hd : (predSpec root env ctx e).isSome = true) :
+    (evalExpr root env ctx e).map truthy = .ok b ↔ predSpec root env ctx e = some b := by
+  obtain ⟨b', hb'⟩ := Option.isSome_iff_exists.1 hd
+  obtain ⟨v, hv, ht⟩ := evalExpr_truthy_of_predSafe root env ctx e b' hs hb'
+  rw [hv, hb']
+  subst ht
+  constructor
+  · intro h
+    cases h
+    rfl
+  · intro h
+    cases h
+    rfl
+
+/-- as a statement about `predHolds` (Spec.lean), the value the step denotation uses -/
+theorem c06_predHolds_eq_xpath1_partial (root : PTree) (env : NsEnv) (pred : Expr) (n : XNode) (pos size : Nat)
+    (hs : PredSafe root env { node := n, position := pos, size := size } pred)
+    (hd : (predSpec root env { node := n, position := pos, size := size } pred).isSome = true) :
+    predHolds root env pred n pos size = predHoldsXPath1 root env pred n pos size := by
+  obtain ⟨b, hb⟩ := Option.isSome_iff_exists.1 hd
+  obtain ⟨v, hv, ht⟩ := evalExpr_truthy_of_predSafe root env _ pred b hs hb
+  simp [predHolds, predHoldsXPath1, hv, hb, ht]
+
+/-- `contains` in the specification is "occurs as a contiguous block" -/
+theorem c06_spec_contains (sub s : Str) : isInfix sub s = true ↔ ∃ pre post, s = pre ++ sub ++ post := by
+  exact isInfix_iff sub s
+
+/-! ### where `PredSafe` fails: mechanism ≠ XPath 1.0
+
+`<r k="va" e="">t</r>`, context node the root element (position 1 of 2), resp. its text child -/
+
+private def pvTree : PTree := .tag 0 "" "r" [⟨"", "k", "va".toList⟩, ⟨"", "e", []⟩] [.text 1 "t".toList]
+private def pvEnv : NsEnv := [("", "")]
+private def pvCtx : Ctx := { node := .at [], position := 1, size := 2 }
+private def pvText : Ctx := { node := .at [0], position := 1, size := 2 }
+private def att (n : String) : Expr := .attrVal none n.toList
+private def lit (s : String) : Expr := .str s.toList
+private def call (f : String) (args : List Expr) : Expr := .func f.toList args
+
+/-- `attribute-compare-absent`: `[@x != '1']` on an element without `x` — XPath 1.0 false, mechanism true -/
+theorem c06_pred_deviation_attr_ne_absent :
+    predSpec pvTree pvEnv pvCtx (.binop "!=" (att "x") (lit "1")) = some false ∧
+    (evalExpr pvTree pvEnv pvCtx (.binop "!=" (att "x") (lit "1"))).map truthy = .ok true ∧
+    ¬ PredSafe pvTree pvEnv pvCtx (.binop "!=" (att "x") (lit "1")) := by
+  refine ⟨rfl, rfl, fun h => ?_⟩
+  exact absurd h.attrCompare (by decide)
+
+/-- `attribute-compare-absent`: `[@x = '']` on an element without `x` — XPath 1.0 false, mechanism true -/
+theorem c06_pred_deviation_attr_eq_empty_absent :
+    predSpec pvTree pvEnv pvCtx (.binop "=" (att "x") (lit "")) = some false ∧
+    (evalExpr pvTree pvEnv pvCtx (.binop "=" (att "x") (lit ""))).map truthy = .ok true ∧
+    ¬ PredSafe pvTree pvEnv pvCtx (.binop "=" (att "x") (lit "")) := by
+  refine ⟨rfl, rfl, fun h => ?_⟩
+  exact absurd h.attrCompare (by decide)
+
+/-- `not-boolean-empty-attribute`: `[not(@e)]` with `e=""` — XPath 1.0 false (the attribute is there),
+    mechanism true -/
+theorem c06_pred_deviation_not_empty_attr :
+    predSpec pvTree pvEnv pvCtx (call "not" [att "e"]) = some false ∧
+    (evalExpr pvTree pvEnv pvCtx (call "not" [att "e"])).map truthy = .ok true ∧
+    ¬ PredSafe pvTree pvEnv pvCtx (call "not" [att "e"]) := by
+  refine ⟨rfl, rfl, fun h => ?_⟩
+  exact absurd h.attrBoolean (by decide)
+
+/-- `number-predicate-not-position`: `[last()]` at position 1 of 2 — XPath 1.0 false, mechanism true -/
+theorem c06_pred_deviation_last :
+    predSpec pvTree pvEnv pvCtx (call "last" []) = some false ∧
+    (evalExpr pvTree pvEnv pvCtx (call "last" [])).map truthy = .ok true ∧
+    ¬ PredSafe pvTree pvEnv pvCtx (call "last" []) := by
+  refine ⟨rfl, rfl, fun h => ?_⟩
+  exact absurd h.numberPred (by decide)
+
+/-- `attribute-function-on-non-tag`: `[contains(@k, 'a')]` on a text node — XPath 1.0 false (the attribute
+    axis of a text node is empty, `contains('', 'a')`), the mechanism raises -/
+theorem c06_pred_deviation_contains_on_text :
+    predSpec pvTree pvEnv pvText (call "contains" [att "k", lit "a"]) = some false ∧
+    evalExpr pvTree pvEnv pvText (call "contains" [att "k", lit "a"]) = .error (.py "TypeError" "function contains") ∧
+    ¬ PredSafe pvTree pvEnv pvText (call "contains" [att "k", lit "a"]) := by
+  refine ⟨rfl, rfl, fun h => ?_⟩
+  exact absurd h.attrFunction (by decide)
+
+/-- further deviation (`and-or-non-boolean-operand`): `[1 and 2]` — XPath 1.0 true, mechanism false
+    (bitwise `1 & 2 = 0`) -/
+theorem c06_pred_deviation_and_numbers :
+    predSpec pvTree pvEnv pvCtx (.binop "and" (.num 1) (.num 2)) = some true ∧
+    (evalExpr pvTree pvEnv pvCtx (.binop "and" (.num 1) (.num 2))).map truthy = .ok false ∧
+    ¬ PredSafe pvTree pvEnv pvCtx (.binop "and" (.num 1) (.num 2)) := by
+  refine ⟨rfl, rfl, fun h => ?_⟩
+  exact absurd h.andOr (by decide)
+
+/-- further deviation (`boolean-compared-with-non-boolean`): `[not(@x) = 2]` on an element without `x` —
+    XPath 1.0 true (`boolean(2)` is true), mechanism false (`True == 2`) -/
+theorem c06_pred_deviation_boolean_eq_number :
+    predSpec pvTree pvEnv pvCtx (.binop "=" (call "not" [att "x"]) (.num 2)) = some true ∧
+    (evalExpr pvTree pvEnv pvCtx (.binop "=" (call "not" [att "x"]) (.num 2))).map truthy = .ok false ∧
+    ¬ PredSafe pvTree pvEnv pvCtx (.binop "=" (call "not" [att "x"]) (.num 2)) := by
+  refine ⟨rfl, rfl, fun h => ?_⟩
+  exact absurd h.boolCompare (by decide)
+
+/-! ### non-vacuity: `PredSafe` holds and both sides have the same value -/
+
+/-- `[@k="va" and position()<3]` -/
+example : PredSafe pvTree pvEnv pvCtx
+      (.binop "and" (.binop "=" (att "k") (lit "va")) (.binop "<" (call "position" []) (.num 3))) ∧
+    predSpec pvTree pvEnv pvCtx
+      (.binop "and" (.binop "=" (att "k") (lit "va")) (.binop "<" (call "position" []) (.num 3))) = some true ∧
+    (evalExpr pvTree pvEnv pvCtx
+      (.binop "and" (.binop "=" (att "k") (lit "va")) (.binop "<" (call "position" []) (.num 3)))).map truthy
+      = .ok true := ⟨by decide, rfl, rfl⟩
+
+/-- `[not(@k="v")]` -/
+example : PredSafe pvTree pvEnv pvCtx (call "not" [.binop "=" (att "k") (lit "v")]) ∧
+    predSpec pvTree pvEnv pvCtx (call "not" [.binop "=" (att "k") (lit "v")]) = some true ∧
+    (evalExpr pvTree pvEnv pvCtx (call "not" [.binop "=" (att "k") (lit "v")])).map truthy = .ok true :=
+  ⟨by decide, rfl, rfl⟩
+
+/-- `[contains(@k,"a") or starts-with(@k,"b")]` -/
+example : PredSafe pvTree pvEnv pvCtx
+      (.binop "or" (call "contains" [att "k", lit "a"]) (call "starts-with" [att "k", lit "b"])) ∧
+    predSpec pvTree pvEnv pvCtx
+      (.binop "or" (call "contains" [att "k", lit "a"]) (call "starts-with" [att "k", lit "b"])) = some true ∧
+    (evalExpr pvTree pvEnv pvCtx
+      (.binop "or" (call "contains" [att "k", lit "a"]) (call "starts-with" [att "k", lit "b"]))).map truthy
+      = .ok true := ⟨by decide, rfl, rfl⟩
+
+/-- `[2]`, which the parser renders as `[position() = 2]`: false at position 1 -/
+example : PredSafe pvTree pvEnv pvCtx (.binop "=" (call "position" []) (.num 2)) ∧
+    predSpec pvTree pvEnv pvCtx (.binop "=" (call "position" []) (.num 2)) = some false ∧
+    (evalExpr pvTree pvEnv pvCtx (.binop "=" (call "position" []) (.num 2))).map truthy = .ok false :=
+  ⟨by decide, rfl, rfl⟩
+
+/-- `[@k]` (a whole predicate `@name` is `hasAttr`) and the same on the text child -/
+example : PredSafe pvTree pvEnv pvCtx (.hasAttr none "k".toList) ∧
+    predSpec pvTree pvEnv pvCtx (.hasAttr none "k".toList) = some true ∧
+    (evalExpr pvTree pvEnv pvCtx (.hasAttr none "k".toList)).map truthy = .ok true ∧
+    PredSafe pvTree pvEnv pvText (.hasAttr none "k".toList) ∧
+    predSpec pvTree pvEnv pvText (.hasAttr none "k".toList) = some false :=
+  ⟨by decide, rfl, rfl, by decide, rfl⟩
+
+/-- the theorem applied: the hypotheses of `c06_pred_eq_xpath1_partial` are met -/
+example : (evalExpr pvTree pvEnv pvCtx (call "not" [.binop "=" (att "k") (lit "v")])).map truthy = .ok true :=
+  (c06_pred_eq_xpath1_partial pvTree pvEnv pvCtx _ true (by decide) rfl).2 rfl
+
+/-! ### lifted to location steps
+
+`stepDenoteXPath1` (PredSpec.lean) is `stepDenote` with the predicate values of XPath 1.0 in place of the
+mechanism's.  If every predicate of the step, on every candidate (node on the axis passing the node test),
+is outside the marked situations and has an XPath 1.0 value, the mechanism's result is that denotation:
+mechanism = `Spec.lean` denotation = XPath 1.0 including predicate values (with the three established
+deviations of `Spec.lean`). -/
+
+theorem c06_step_eq_xpath1_partial (root : PTree) (env : NsEnv) (s : Step) (ctx : XNode) (r : List XNode)
+    (hctx : ctx ∈ docNodes root) (hd : DocTypeOk s ctx)
+    (hp : ∀ pred ∈ s.preds, ∀ n ∈ (axisDenote root s.axis ctx).filter (testDenote root env s.test), ∀ pos size,
+      PredSafe root env { node := n, position := pos, size := size } pred ∧
+      (predSpec root env { node := n, position := pos, size := size } pred).isSome = true)
+    (h : evalStepAt root env s ctx = .ok r) :
+    r = stepDenoteXPath1 root env s ctx ∧ r.Nodup := by
+  obtain ⟨e, hn⟩ := c06_step_eq_denotation root env s ctx r hctx hd h
+  exact ⟨e.trans (stepDenote_eq_xpath1 root env s ctx hp), hn⟩
+
+/-- non-vacuity: `child::a[@k="2"]` from the root of `exTree` (candidates: three `a`, one without `k`) -/
+private def exStepK2 : Step :=
+  { axis := "child", test := .name none "a".toList, preds := [.binop "=" (att "k") (lit "2")] }
+example : evalStepAt exTree exEnv exStepK2 (.at []) = .ok [.at [4]] ∧
+    stepDenoteXPath1 exTree exEnv exStepK2 (.at []) = [.at [4]] := ⟨rfl, rfl⟩
+example : ∀ pred ∈ exStepK2.preds,
+    ∀ n ∈ (axisDenote exTree exStepK2.axis (.at [])).filter (testDenote exTree exEnv exStepK2.test), ∀ pos size,
+      PredSafe exTree exEnv { node := n, position := pos, size := size } pred ∧
+      (predSpec exTree exEnv { node := n, position := pos, size := size } pred).isSome = true := by
+  intro pred hpred n hn pos size
+  have hn' : n ∈ [XNode.at [0], .at [2], .at [4]] := hn
+  have hpred' : pred ∈ [Expr.binop "=" (att "k") (lit "2")] := hpred
+  simp only [List.mem_singleton] at hpred'
+  subst hpred'
+  simp only [List.mem_cons, List.not_mem_nil, or_false] at hn'
+  rcases hn' with rfl | rfl | rfl <;> exact ⟨⟨rfl, rfl, rfl, rfl, rfl, rfl, rfl, rfl⟩, rfl⟩
 
 end Delb.XPath
